@@ -254,7 +254,11 @@ func handleSINTERSTORE(params internal.HandlerFuncParams) ([]byte, error) {
 
 	for key, exists := range keyExists {
 		if !exists {
-			return []byte(":0\r\n"), err
+			// The intersection with a missing key is empty: the destination becomes the empty set.
+			if err = params.SetValues(params.Context, map[string]interface{}{keys.WriteKeys[0]: NewSet([]string{})}); err != nil {
+				return nil, err
+			}
+			return []byte(":0\r\n"), nil
 		}
 		set, ok := params.GetValues(params.Context, []string{key})[key].(*Set)
 		if !ok {
